@@ -76,7 +76,7 @@ deriving Repr, DecidableEq
 def iterate : Nat → CS → List Json → Out
   | 0, s, acc => { stdout := acc, hang := true, wire := s.wire }
   | fuel + 1, s, acc =>
-    match next s with
+    match next decValue s with
     | none => { stdout := acc, hang := true, wire := s.wire }
     | some (.none, s') => { stdout := acc, exit := 0, wire := s'.wire }
     | some (.ok v, s') => iterate fuel s' (acc ++ [v])
@@ -87,7 +87,7 @@ def iterate : Nat → CS → List Json → Out
 def runCall (p : Peer) (w : Wire) (method : String) (args : Option Json) (more : Bool) : Out :=
   let s : CS := { conn := {}, call := MCall.new method (args.getD .null), wire := w }
   if !more then
-    match Client.call p s with
+    match Client.call p decValue s with
     | none => { hang := true, wire := (send p false false false s).2.wire }
     | some (.ok v, s') => { stdout := [v], exit := 0, wire := s'.wire }
     | some (.err k, s') => { exit := 1, report := some (reportOf k), wire := s'.wire }
